@@ -391,7 +391,7 @@ Proof. intros. reflexivity. Qed.
 
 Theorem step_inv : forall cap st o, wf_op st o = true -> Inv st -> Inv (step cap st o).
 Proof.
-  intros cap st o Hwf HI. destruct o as [a | a created okr | a touched l | a touched | | ran mint flush ooorm | so refs maxt | | post extra]; simpl in *.
+  intros cap st o Hwf HI. destruct o as [a | a created okr | a touched l | a touched | | ran mint flush ooorm | so refs maxt | | post extra bextra]; simpl in *.
   - (* OOpen *) destruct HI. constructor; simpl; auto. rewrite zlen_cons. lia.
   - (* OAppend *)
     assert (H1 : Inv (match created with
@@ -450,6 +450,7 @@ Proof.
     constructor; simpl; auto; lia.
   - (* ONop *) assumption.
   - (* ORestart *)
+    apply andb_true_iff in Hwf. destruct Hwf as [Hwf Hb]. apply Z.eqb_eq in Hb. subst bextra.
     apply andb_true_iff in Hwf. destruct Hwf as [Hp He]. apply Z.eqb_eq in He. subst extra.
     destruct (wf_sers_ok _ Hp) as [Hw Hok].
     destruct (replay_fold post ctrs0 Hw) as (A & B & C & D & E & F). cbv zeta in *.
@@ -509,7 +510,7 @@ Qed.
 Theorem step_active : forall cap st o,
   c_active (st_c st) = zlen (st_open st) -> c_active (st_c (step cap st o)) = zlen (st_open (step cap st o)).
 Proof.
-  intros cap st o H. destruct o as [a | a created okr | a touched l | a touched | | ran mint flush ooorm | so refs maxt | | post extra]; simpl.
+  intros cap st o H. destruct o as [a | a created okr | a touched l | a touched | | ran mint flush ooorm | so refs maxt | | post extra bextra]; simpl.
   - rewrite zlen_cons. lia.
   - destruct created as [r|]; [destruct (find_ser r (st_series st))|]; destruct okr; simpl; assumption.
   - destruct (mem a (st_open st)) eqn:EM; [|assumption]. simpl.
